@@ -35,6 +35,20 @@ def has(rr, ops=(), classes=()):
 REGISTRY = {}
 
 
+def link_aware(base):
+    """Dispatch the link-program monitors by tag, everything else to `base`."""
+    def m(rr):
+        t = rr.prog.tags
+        if "linkvs" in t:
+            return P.mon_link_vs_written(rr)
+        if "linkread" in t:
+            return P.mon_link_reader(rr)
+        if "linkrm" in t:
+            return P.mon_linked_removal(rr)
+        return base(rr)
+    return m
+
+
 def reg(pid, **kw):
     kw.setdefault("monitors", [])
     kw["monitors"] = [mon_generic] + kw["monitors"]
@@ -73,8 +87,9 @@ reg("C18",
 
 reg("C02",
     gen=lambda seed, tier: (P.gen_roundtrip_programs(G.Rng(seed + 2), N(tier, 120, 1500), big=N(tier, 0.03, 0.08)) +
-                            P.gen_streamed_readback_programs()),
-    monitors=[lambda rr: P.mon_streamed_readback(rr) if "sread" in rr.prog.tags else P.mon_roundtrip(rr)],
+                            P.gen_streamed_readback_programs() +
+                            [p for p in P.gen_link_vs_written_programs() if "written" in p.name]),
+    monitors=[link_aware(lambda rr: P.mon_streamed_readback(rr) if "sread" in rr.prog.tags else P.mon_roundtrip(rr))],
     extra=lambda seed, tier, flavours: merge(
         LG.leg_resumed_writer(flavours if tier == "thorough" else flavours[:1]),
         LG.leg_skeleton(P.gen_roundtrip_programs(G.Rng(seed + 21), N(tier, 6, 40)), flavours[0])),
@@ -91,11 +106,12 @@ reg("C16",
                             P.gen_coexist_programs(G.Rng(seed + 161), N(tier, 60, 600)) +
                             P.gen_commit_programs(G.Rng(seed + 162), N(tier, 60, 600), big=N(tier, 0.03, 0.1)) +
                             P.gen_size_matrix(G.Rng(seed + 163)) +
-                            P.gen_history_programs(G.Rng(seed + 164), N(tier, 30, 300), maxlen=N(tier, 12, 30))),
-    monitors=[lambda rr: (P.mon_size_matrix(rr) if "matrix" in rr.prog.tags else
+                            P.gen_history_programs(G.Rng(seed + 164), N(tier, 30, 300), maxlen=N(tier, 12, 30)) +
+                            P.gen_link_reader_programs() + P.gen_link_vs_written_programs()),
+    monitors=[link_aware(lambda rr: (P.mon_size_matrix(rr) if "matrix" in rr.prog.tags else
                           P.mon_commit(rr) if "commit" in rr.prog.tags else
                           P.mon_history(rr) if "steps" in rr.prog.tags and "keys" in rr.prog.tags else
-                          P.mon_roundtrip(rr) + P.mon_coexist(rr)),
+                          P.mon_roundtrip(rr) + P.mon_coexist(rr))),
               lambda rr: mon_content_valid(rr)],
     extra=lambda seed, tier, flavours: merge(
         LG.leg_resumed_writer(flavours if tier == "thorough" else flavours[:1]),
@@ -191,8 +207,8 @@ reg("C20",
 
 reg("C08",
     gen=lambda seed, tier: (P.gen_commit_programs(G.Rng(seed + 8), N(tier, 120, 1500), big=N(tier, 0.05, 0.1)) +
-                            P.gen_size_matrix(G.Rng(seed + 81))),
-    monitors=[lambda rr: P.mon_size_matrix(rr) if "matrix" in rr.prog.tags else P.mon_commit(rr)],
+                            P.gen_size_matrix(G.Rng(seed + 81)) + P.gen_link_vs_written_programs()),
+    monitors=[link_aware(lambda rr: P.mon_size_matrix(rr) if "matrix" in rr.prog.tags else P.mon_commit(rr))],
     nontrivial=lambda rr: has(rr, ("wcommit",), ("err integrity", "err size", "ok")),
     rule="programs: prior state of the key (absent / present / removed), then a writer (sync/async, keyed/by address, "
          "four algorithms, data incl. 0 B and 1 MiB±1, random chunking) with declared size in {none, =, <, >} and declared "
@@ -202,9 +218,10 @@ reg("C08",
 reg("C14",
     gen=lambda seed, tier: (P.gen_abandon_programs(G.Rng(seed + 14), N(tier, 80, 800)) +
                             P.gen_commit_programs(G.Rng(seed + 15), N(tier, 40, 400)) +
-                            P.gen_size_matrix(G.Rng(seed + 142))),
-    monitors=[lambda rr: (P.mon_abandon(rr) if "base" in rr.prog.tags else
-                          P.mon_size_matrix(rr) if "matrix" in rr.prog.tags else P.mon_commit(rr, readable=False))],
+                            P.gen_size_matrix(G.Rng(seed + 142)) +
+                            [p for p in P.gen_link_vs_written_programs() if "-size-" in p.name or "-sri-" in p.name]),
+    monitors=[link_aware(lambda rr: (P.mon_abandon(rr) if "base" in rr.prog.tags else
+                          P.mon_size_matrix(rr) if "matrix" in rr.prog.tags else P.mon_commit(rr, readable=False)))],
     extra=lambda seed, tier, flavours: merge(
         LG.leg_fault_injection(LG.fault_cases_writes(G.Rng(seed + 141)), flavours[0], tier),
         LG.leg_writer_faults(flavours[0], tier)),
@@ -218,8 +235,9 @@ reg("C14",
 reg("C11",
     gen=lambda seed, tier: (P.gen_metadata_programs(G.Rng(seed + 11), N(tier, 150, 2000)) +
                             P.gen_attach_rewrite_programs(G.Rng(seed + 111)) +
-                            P.gen_cancel_programs(G.Rng(seed + 112))),
+                            P.gen_cancel_programs(G.Rng(seed + 112)) + P.gen_link_reader_programs()),
     monitors=[lambda rr: (P.mon_attach(rr) if "attach" in rr.prog.tags else
+                          P.mon_link_reader(rr) if "linkread" in rr.prog.tags else
                           P.mon_cancel(rr) if "cancel" in rr.prog.tags else P.mon_metadata(rr))],
     nontrivial=lambda rr: has(rr, ("metadata",), ("ok",)),
     rule="programs: one write through write / streamed writer / index insert with explicit or default time, metadata "
@@ -250,8 +268,11 @@ reg("C17",
 
 reg("C19",
     gen=lambda seed, tier: (P.gen_linkto_programs(G.Rng(seed + 19), N(tier, 100, 1000)) + P.gen_link_dotdot_programs() +
-                            P.gen_linked_removal_programs() + P.gen_symlink_chain_programs()),
+                            P.gen_linked_removal_programs() + P.gen_symlink_chain_programs() + P.gen_link_reader_programs() +
+                            P.gen_link_vs_written_programs()),
     monitors=[lambda rr: (P.mon_link_dotdot(rr) if "dotdot" in rr.prog.tags else
+                          P.mon_link_reader(rr) if "linkread" in rr.prog.tags else
+                          P.mon_link_vs_written(rr) if "linkvs" in rr.prog.tags else
                           P.mon_linked_removal(rr) if "linkrm" in rr.prog.tags else
                           P.mon_symlink_chain(rr) if "chain" in rr.prog.tags else P.mon_linkto(rr))],
     nontrivial=lambda rr: has(rr, ("link_to", "link_to_hash", "lcommit"), ("ok",)),
